@@ -13,6 +13,7 @@
 -/
 import Jb.Proofs.Hts
 import Jb.Props.C20
+import Jb.Proofs.ParseShape
 
 set_option linter.unusedSectionVars false
 
@@ -64,5 +65,32 @@ example : glob ['?'] [] = false := by
   cases h : glob ['?'] [] with
   | false => rfl
   | true => exact nomatch (glob_correct _ _).mp h
+
+/-- every Gaussian that selection can ever hand to synthesis from a loaded voice is one of the file's PDFs and has the
+    announced layout: `NUM_STATES` entries for durations, `VECTOR_LENGTH × NUM_WINDOWS` (+ voicing weight iff MSD) for a
+    stream, `VECTOR_LENGTH` for GV -/
+theorem selected_gaussian_shape (bytes : List Nat) (v : ParsedVoice) (h : parseVoice true bytes = .ok v)
+    (k : Nat) (label : List Char) (ti id : Nat) (p : PdfBits) :
+    (getParameter v.duration k label = some (ti, id, p) →
+      p.means.length = v.global.nstates ∧ p.varis.length = v.global.nstates ∧ p.msd = none) ∧
+    (∀ s ∈ v.streams, getParameter s.model k label = some (ti, id, p) →
+      p.means.length = s.info.veclen * s.info.nwin ∧ p.varis.length = s.info.veclen * s.info.nwin ∧
+      p.msd.isSome = s.info.isMsd) ∧
+    (∀ s ∈ v.streams, ∀ g, s.gv = some g → getParameter g k label = some (ti, id, p) →
+      p.means.length = s.info.veclen ∧ p.varis.length = s.info.veclen ∧ p.msd = none) :=
+  selected_shape bytes v h k label ti id p
+
+/-- selection returns entry `id − 1` of the PDF list of the tree whose declared state is the requested one -/
+theorem selection_is_indexed (m : FileModel) (k : Nat) (label : List Char) (ti id : Nat) (p : PdfBits)
+    (h : getParameter m k label = some (ti, id, p)) :
+    2 ≤ ti ∧ 1 ≤ id ∧ ∃ t ps, m.trees[ti - 2]? = some t ∧ t.state = k ∧ evalTree m.questions t label = some id ∧
+      m.pdfs[ti - 2]? = some ps ∧ ps[id - 1]? = some p :=
+  getParameter_index m k label ti id p h
+
+/-- on an accepted, acyclic, non-empty tree the walk ends in a PDF id for every label -/
+theorem accepted_tree_total (qs : Questions) (t : FileTree) (hwf : TreeWF t) (hne : t.rows ≠ [])
+    (r : Nat × List TNode) (hc : convertTree true qs t = .ok r) (label : List Char) :
+    ∃ k, evalTree qs t label = some k :=
+  evalTree_total_of_wf qs t hwf hne r hc label
 
 end Jb.C04
